@@ -118,6 +118,20 @@ func init() {
 	// hook-free: recorders race with a snapshot loop; output = final Total plus ground truth.
 	register("progress.stress", func(a []string) string {
 		g, per, failEvery, dropEvery := atoi(a[0]), atoi(a[1]), atoi(a[2]), atoi(a[3])
+		// a fifth argument `rising`: every record is longer than every earlier one, so every recorder is at every moment
+		// about to publish a new maximum (and, counting down, a new minimum) — the contended path of Add
+		rising := len(a) > 4 && a[4] == "rising"
+		var clock atomic.Int64
+		dur := func(k int) int64 {
+			if rising {
+				c := clock.Add(1)
+				if k%2 == 0 {
+					return 1_000_000_000 + c
+				}
+				return 1_000_000_000 - c
+			}
+			return int64(1 + k%977)
+		}
 		st := &progress.Stats{}
 		var wg sync.WaitGroup
 		var stop atomic.Bool
@@ -142,10 +156,10 @@ func init() {
 						st.Record(metrics.DroppedResult, 0)
 						nd.Add(1)
 					case failEvery > 0 && k%failEvery == 1:
-						st.Record(metrics.FailedResult, int64(1+k%977))
+						st.Record(metrics.FailedResult, dur(k))
 						nf.Add(1)
 					default:
-						st.Record(metrics.SuccessResult, int64(1+k%977))
+						st.Record(metrics.SuccessResult, dur(k))
 						ns.Add(1)
 					}
 				}
